@@ -254,6 +254,14 @@ def assignOf (first : Expr) (suffix : List Expr) : Option Stmt :=
   | some v => some (.assign (first :: suffix.dropLast) v)
   | none => none
 
+/-- the statement starts with a NAME token.  `simple` of an annotated assignment is
+    `target.is_name_expr() && target.start() == location` (/repo fix "a parenthesised name is not a simple
+    target"): a `Name` target starts where the statement starts iff it is written without parentheses, i.e. iff
+    the first token of the statement is the NAME itself -/
+def startsName : List Tok → Bool
+  | .name _ :: _ => true
+  | _ => false
+
 /-- `ExpressionStatement` -/
 def parseExprStmt : Nat → List Tok → PR Stmt
   | 0, _ => none
@@ -278,9 +286,9 @@ def parseExprStmt : Nat → List Tok → PR Stmt
            (match parseTest f r with
             | some (ann, .op .assign :: r1) =>
               (match parseTestListOrYield f r1 with
-               | some (v, r2) => some (.annAssign x ann (some v) (isName x), r2)
+               | some (v, r2) => some (.annAssign x ann (some v) (isName x && startsName ts), r2)
                | none => none)
-            | some (ann, r1) => some (.annAssign x ann none (isName x), r1)
+            | some (ann, r1) => some (.annAssign x ann none (isName x && startsName ts), r1)
             | none => none)
          | _, _ => none)
       | t :: r =>
